@@ -33,7 +33,9 @@ import (
 	"strings"
 	"sync"
 	"sync/atomic"
+	"syscall"
 	"time"
+	"unsafe"
 
 	"verifharness/vutil"
 
@@ -139,7 +141,25 @@ var nonEntryPath = map[string]string{
 	"otherdir": "tmp/" + hex64 + "-a",                        // entry-like name in a directory that is no cache subdirectory
 }
 
+// lutimes sets both times of the link itself (utimensat with AT_SYMLINK_NOFOLLOW).
+func lutimes(path string, t syscall.Timespec) error {
+	bp, err := syscall.BytePtrFromString(path)
+	if err != nil {
+		return err
+	}
+	ts := [2]syscall.Timespec{t, t}
+	const atFdcwd, atSymlinkNofollow = -100, 0x100
+	fd := atFdcwd
+	if _, _, e := syscall.Syscall6(syscall.SYS_UTIMENSAT, uintptr(fd), uintptr(unsafe.Pointer(bp)), uintptr(unsafe.Pointer(&ts[0])), atSymlinkNofollow, 0, 0); e != 0 {
+		return e
+	}
+	return nil
+}
+
 var corruptSeq int64
+var linkWorldSeq int64
+
+const dirVariant = 7 // trim.txt is a directory
 
 var corruptVariant = map[int64][]byte{
 	1: []byte("garbage"),
@@ -148,6 +168,7 @@ var corruptVariant = map[int64][]byte{
 	4: []byte("99999999999999999999999999"),
 	5: []byte("1.7e9"),
 	6: {0x00, 0xff, 0x31, 0x0a},
+	7: nil, // dirVariant
 }
 
 // ---- snapshots --------------------------------------------------------------------------
@@ -175,9 +196,11 @@ func snap(root string) snapshot {
 			s.Dirs[rel] = true
 			return nil
 		}
-		info, err := os.Lstat(p)
+		info, err := os.Stat(p) // (an entry that is a link counts as what it leads to: that is what a lookup refreshes)
 		if err != nil {
-			return nil
+			if info, err = os.Lstat(p); err != nil {
+				return nil
+			}
 		}
 		data, _ := os.ReadFile(p)
 		sum := sha256.Sum256(data)
@@ -351,6 +374,40 @@ func build(cs *caseJ, root string) (*world, error) {
 			return nil, err
 		}
 	}
+	// every third world keeps its entry files in a store beside the cache directory and links them in (a cache shared
+	// through links): the links themselves are as old as the store, using or storing an entry refreshes the file
+	if atomic.AddInt64(&linkWorldSeq, 1)%3 == 0 {
+		store := root + ".store"
+		os.RemoveAll(store)
+		if err := os.MkdirAll(store, 0o777); err != nil {
+			return nil, err
+		}
+		k := 0
+		for f, age := range cs.Init.E {
+			if age == absent {
+				continue
+			}
+			p := filepath.Join(root, w.paths[f])
+			k++
+			target := filepath.Join(store, fmt.Sprintf("e%d", k))
+			if err := os.Rename(p, target); err != nil {
+				return nil, err
+			}
+			if err := os.Symlink(target, p); err != nil {
+				return nil, err
+			}
+			old := syscall.NsecToTimespec(now.Add(-mins(90 * 24 * 60)).UnixNano())
+			if err := lutimes(p, old); err != nil {
+				return nil, err
+			}
+		}
+	}
+	// the subdirectories themselves are old: their times change when an entry comes or goes, not when one is used or
+	// stored again - in a cache that has been in use for months they say nothing about the entries
+	for i := 0; i < 256; i++ {
+		t := now.Add(-mins(60 * 24 * 60))
+		os.Chtimes(filepath.Join(root, fmt.Sprintf("%02x", i)), t, t)
+	}
 	tp := filepath.Join(root, "trim.txt")
 	switch cs.Init.TT.K {
 	case "missing":
@@ -358,6 +415,14 @@ func build(cs *caseJ, root string) (*world, error) {
 		b, ok := corruptVariant[cs.Init.TT.V]
 		if !ok {
 			return nil, fmt.Errorf("unknown corrupt variant %d", cs.Init.TT.V)
+		}
+		if cs.Init.TT.V == dirVariant {
+			// a record that can be neither read nor written: trim.txt is a directory.  No trim is known to have
+			// completed, so one is due; that its time cannot be recorded is the caller's problem, not the entries'
+			if err := os.Mkdir(tp, 0o777); err != nil {
+				return nil, err
+			}
+			break
 		}
 		if err := os.WriteFile(tp, b, 0o666); err != nil {
 			return nil, err
@@ -393,7 +458,7 @@ func (w *world) advance(dt int64) error {
 		if err != nil || d.IsDir() {
 			return nil
 		}
-		info, err := os.Lstat(p)
+		info, err := os.Stat(p)
 		if err != nil {
 			return nil
 		}
@@ -592,6 +657,9 @@ func runCase(res *vutil.Result, line []byte, n int) {
 	case "corrupt":
 		_, ok := parseTrimTxt(ttData)
 		ttOK = ttErr == nil && !ok
+		if st, err := os.Stat(filepath.Join(root, "trim.txt")); cs.Pre.TT.V == dirVariant && err == nil && st.IsDir() {
+			ttOK = true
+		}
 	case "time":
 		t, ok := parseTrimTxt(ttData)
 		ttOK = ttErr == nil && ok && abs(int64(now.Sub(time.Unix(t, 0))/time.Minute)-cs.Pre.TT.V) <= 5
@@ -645,6 +713,12 @@ func runCase(res *vutil.Result, line []byte, n int) {
 				fmt.Sprintf("a trim completed %d minutes ago, yet Trim changed the directory: %v", cs.Pre.TT.V, diff), detail)
 		}
 		res.Count("skipped_ok", 1)
+		sample(res, &cs, hist, diff, n)
+		return
+	}
+	if !changed && cs.Pre.TT.K == "corrupt" && cs.Pre.TT.V == dirVariant && !anyToRemove(&cs, before) {
+		// (a record that cannot be written and nothing stale to remove: a trim that ran leaves no trace)
+		res.Count("ran_without_trace", 1)
 		sample(res, &cs, hist, diff, n)
 		return
 	}
@@ -730,7 +804,9 @@ func runCase(res *vutil.Result, line []byte, n int) {
 	// records the trim time
 	data, err := os.ReadFile(filepath.Join(root, "trim.txt"))
 	t, ok := parseTrimTxt(data)
-	if err != nil || !ok || t < callStart.Unix()-2 || t > callEnd.Unix()+2 {
+	if cs.Pre.TT.K == "corrupt" && cs.Pre.TT.V == dirVariant {
+		// (nothing can be recorded in a directory)
+	} else if err != nil || !ok || t < callStart.Unix()-2 || t > callEnd.Unix()+2 {
 		v.violate("trim-time-not-recorded", "trim.txt "+ttClass(cs.Pre.TT),
 			fmt.Sprintf("Trim ran (changes %v) but trim.txt holds %q afterwards, not the time of the trim (%d)", diff, data, callStart.Unix()), detail)
 	}
@@ -753,6 +829,17 @@ func runCase(res *vutil.Result, line []byte, n int) {
 		}
 	}
 	sample(res, &cs, hist, diff, n)
+}
+
+// anyToRemove reports whether the model expects the judged trim to remove a file that exists.
+func anyToRemove(cs *caseJ, before snapshot) bool {
+	for f, cls := range cs.Expect.Cls {
+		if cls == "remove" {
+			return true
+		}
+		_ = f
+	}
+	return false
 }
 
 // probe looks the ids that map to model file f up through the public API (after the verdict
